@@ -1,5 +1,6 @@
 import MtailVerif.Proofs.VMRun
 import MtailVerif.Generated.VM
+import MtailVerif.Proofs.Skeletons
 /-! # C04 — accepted programs never fault inside the VM
 
     `VM.step` (Model/VM.lean) mirrors `vm.go` opcode by opcode, with every condition under which
@@ -117,5 +118,16 @@ example : StoreOK exProg exStore [] := by
 /-- ill-typed bytecode is rejected: `iget` on a float metric's datum -/
 example : (verifyProg { exProg with code := [⟨.mload, .int 0⟩, ⟨.dload, .int 0⟩, ⟨.fget, .none⟩] }).isOk = false := by
   decide
+
+/-! ### regenerated control skeletons (written by lib/wire_skeletons.py) -/
+/-- Obligations over regenerated facts: the functions this property's model stands for have the
+    control skeleton the model was written against (`Proofs/Skeletons.lean`, one `rfl` per function
+    or clause; DESIGN.md §11.6a) -/
+theorem exec_skeletons : Skeletons.ExecShape := Skeletons.exec_shape
+theorem compare_skeletons : Skeletons.CompareShape := Skeletons.compare_shape
+theorem codegenBefore_skeletons : Skeletons.CodegenBeforeShape := Skeletons.codegenBefore_shape
+theorem codegenAfter_skeletons : Skeletons.CodegenAfterShape := Skeletons.codegenAfter_shape
+theorem checkerBefore_skeletons : Skeletons.CheckerBeforeShape := Skeletons.checkerBefore_shape
+theorem checkerAfter_skeletons : Skeletons.CheckerAfterShape := Skeletons.checkerAfter_shape
 
 end MtailVerif.C04
